@@ -13,6 +13,7 @@ import (
 
 	"github.com/sergeii/swat4master/internal/core/entities/details"
 	"github.com/sergeii/swat4master/internal/core/entities/master"
+	"github.com/sergeii/swat4master/pkg/gamespy/browsing"
 	"github.com/sergeii/swat4master/pkg/gamespy/serverquery/params"
 	"github.com/sergeii/swat4master/verifharness/internal/facts"
 )
@@ -117,6 +118,9 @@ func init() {
 			master.MsgChallenge, master.MsgHeartbeat, master.MsgKeepalive, master.MsgAvailable)
 		fmt.Fprintf(w, "def reporterResponseChallenge : List UInt8 := %s\n", facts.LeanBytes(master.ResponseChallenge))
 		fmt.Fprintf(w, "def reporterResponseIsAvailable : List UInt8 := %s\n", facts.LeanBytes(master.ResponseIsAvailable))
+		fmt.Fprintf(w, "/-- browsing.MinRequestPayloadLength, browsing.MaxAllowedNumberOfFields (C06, TCP half) -/\n")
+		fmt.Fprintf(w, "def reporterTcpMinRequestLen : Nat := %d\ndef reporterTcpMaxFields : Nat := %d\n",
+			browsing.MinRequestPayloadLength, browsing.MaxAllowedNumberOfFields)
 		return nil
 	})
 }
